@@ -625,7 +625,7 @@ func priceUpdateRejectedRun(o []Oracle, mon MonFlags, d, b, m int) RunSpec {
 // twoCreatesRun: the owning module calls CreateRequestContext a second time under the transaction hash and message
 // index of an earlier call (template moddup shares them with mod1), in the same block or while mod1's batch is in flight.
 func twoCreatesRun(o []Oracle, mon MonFlags, d, b, m int) RunSpec {
-	return RunSpec{Name: "mod-two-creates-in-one-message", Sc: scMod(defaultParams(), []Template{tMod1, tModDup},
+	return RunSpec{Name: "mod-two-creates-in-one-message", Sc: scMod(defaultParams(), []Template{tMod1, tModDup, tMod2, tModDup2},
 		AlphaOpts{RespKinds: []string{"ok"}, ModOps: []string{"mpause", "mkill"}}, d, b, m), Oracles: o, Mon: mon}
 }
 
